@@ -86,7 +86,7 @@ Proof. exact profile_irrelevant. Qed.
     the same syntax error *)
 Theorem C10_front_end_profile_irrelevant :
   forall src, (byte_len src < u32_limit)%N -> lex Debug src = lex Release src /\ parse Debug src = parse Release src.
-Proof. exact (fun src H => conj (lex_profile_irrelevant src H) (parse_profile_irrelevant src H)). Qed.
+Proof. exact front_end_profile_irrelevant. Qed.
 
 Print Assumptions C10_join_order_independent.
 Print Assumptions C10_runtime_array_order_independent.
